@@ -426,3 +426,247 @@ Section PressureGradient.
     field; exact R_nz.
   Qed.
 End PressureGradient.
+
+(** ** Abstract linear horizontal operators *)
+Section Linear.
+  Context {F : Type} {o : Ops F} {Fc : FieldC o}.
+  Add Field FFl : (field_c : FieldTh o).
+
+  (** extensional and linear (no functional extensionality needed) *)
+  Definition linear {A B : Type} (L : (A -> F) -> B -> F) : Prop :=
+    (forall x y, (forall a, x a = y a) -> forall b, L x b = L y b) /\
+    (forall (t : F) x y b, L (fun a => x a + t * y a) b = L x b + t * L y b).
+  Definition linear2 {A B : Type} (D : (A -> F) -> (A -> F) -> B -> F) : Prop :=
+    (forall x1 y1 x2 y2, (forall a, x1 a = y1 a) -> (forall a, x2 a = y2 a) -> forall b, D x1 x2 b = D y1 y2 b) /\
+    (forall (t : F) x1 y1 x2 y2 b,
+        D (fun a => x1 a + t * y1 a) (fun a => x2 a + t * y2 a) b = D x1 x2 b + t * D y1 y2 b).
+
+  Lemma lin_comb {A B} (L : (A -> F) -> B -> F) (HL : linear L) (x y z : A -> F) (t : F) :
+    (forall a, x a = y a + t * z a) -> forall b, L x b = L y b + t * L z b.
+  Proof. intros E b. destruct HL as [He Hl]. rewrite (He x _ E). apply Hl. Qed.
+  Lemma lin_ext {A B} (L : (A -> F) -> B -> F) (HL : linear L) (x y : A -> F) :
+    (forall a, x a = y a) -> forall b, L x b = L y b.
+  Proof. destruct HL as [He _]. apply He. Qed.
+  Lemma lin_zero {A B} (L : (A -> F) -> B -> F) (HL : linear L) b : L (fun _ => 0) b = 0.
+  Proof.
+    destruct HL as [He Hl].
+    pose proof (Hl 1 (fun _ => 0) (fun _ => 0) b) as E. cbv beta in E.
+    rewrite (He (fun _ : A => 0 + 1 * 0) (fun _ => 0)) in E by (intros; ring).
+    set (z := L (fun _ : A => 0) b) in *.
+    assert (X : z + 1 * z - z = z - z) by (rewrite <- E; reflexivity).
+    transitivity (z + 1 * z - z); [ring|]. rewrite X. ring.
+  Qed.
+  Lemma lin_scal {A B} (L : (A -> F) -> B -> F) (HL : linear L) (x z : A -> F) (t : F) :
+    (forall a, x a = t * z a) -> forall b, L x b = t * L z b.
+  Proof.
+    intros E b. rewrite (lin_comb L HL x (fun _ => 0) z t) by (intros; cbv beta; rewrite E; ring).
+    rewrite lin_zero by exact HL. ring.
+  Qed.
+  Lemma lin2_comb {A B} (D : (A -> F) -> (A -> F) -> B -> F) (HD : linear2 D) (x1 y1 z1 x2 y2 z2 : A -> F) (t : F) :
+    (forall a, x1 a = y1 a + t * z1 a) -> (forall a, x2 a = y2 a + t * z2 a) ->
+    forall b, D x1 x2 b = D y1 y2 b + t * D z1 z2 b.
+  Proof. intros E1 E2 b. destruct HD as [He Hl]. rewrite (He x1 _ x2 _ E1 E2). apply Hl. Qed.
+
+  (** A column operator (matrix over the levels) commutes with any linear horizontal
+      operator acting level by level: H.(to_nodal div) = to_nodal(H.div) etc. *)
+  Theorem column_commutes {A B} (L : (A -> F) -> B -> F) (HL : linear L)
+          (K : nat) (M : Mat) (xs : nat -> A -> F) (r : nat) (b : B) :
+    L (fun a => matvec K M (fun s => xs s a) r) b = matvec K M (fun s => L (xs s) b) r.
+  Proof.
+    unfold matvec. induction K as [|K IH]; cbn [sumn].
+    - apply lin_zero, HL.
+    - rewrite <- IH.
+      rewrite (lin_comb L HL _ (fun a => sumn K (fun h => M r h * xs h a)) (xs K) (M r K)) by (intros; cbv beta; ring).
+      reflexivity.
+  Qed.
+End Linear.
+
+Section ModalInvariance.
+  Context {F : Type} {o : Ops F} {Fc : FieldC o}.
+  Add Field FFm : (field_c : FieldTh o).
+  Hypothesis two_nz : two <> 0.
+  Hypothesis feqb_sound : forall x y : F, feqb x y = true -> x = y.
+  Variables W P : Type.
+  Variable toN : (W -> F) -> P -> F.
+  Variable toM : (P -> F) -> W -> F.
+  Variable divc curlc : (W -> F) -> (W -> F) -> W -> F.
+  Variable lap clip : (W -> F) -> W -> F.
+  Hypothesis toM_lin : linear toM.
+  Hypothesis divc_lin : linear2 divc.
+  Hypothesis curlc_lin : linear2 curlc.
+  Hypothesis lap_lin : linear lap.
+  Hypothesis clip_lin : linear clip.
+
+  Variable c : @PEcfg F.
+  Hypothesis th2_nz : forall k, (S k < cK c)%nat -> thickness (cb c) k + thickness (cb c) (S k) <> 0.
+  Variable grav : F.
+
+  (** the state: nodal columns [X] (their temperature entry is ignored), absolute
+      nodal temperature [T], modal divergence [dv], modal absolute temperature [Tm],
+      modal lnps, the modal coefficients [onem] of the constant field one *)
+  Variable X : P -> @NCol F.
+  Variable T : nat -> P -> F.
+  Variable dv : nat -> W -> F.
+  Variable Tm : nat -> W -> F.
+  Variable lnps onem : W -> F.
+  Hypothesis div_nodal : forall p k, n_div (X p) k = toN (dv k) p.
+
+  Definition Xs (Tref : nat -> F) (p : P) : @NCol F := with_temp (X p) (fun k => T k p - Tref k).
+  Definition Tms (Tref : nat -> F) (k : nat) (w : W) : F := Tm k w - Tref k * onem w.
+
+  (** *** temperature equation *)
+  (** admissible state: the divergence survives to_nodal -> to_modal -> clip *)
+  Hypothesis H_roundtrip : forall s w, clip (toM (toN (dv s))) w = dv s w.
+  (** the velocity handed to div_sec_lat has the state's divergence *)
+  Hypothesis H_div_vel : forall r w,
+      clip (divc (toM (fun p => n_u (X p) r * n_sec2 (X p))) (toM (fun p => n_v (X p) r * n_sec2 (X p)))) w
+      = clip (toM (fun p => n_div (X p) r)) w.
+
+  Definition temp_base (r : nat) (w' : W) : F :=
+    toM (fun p => T r p * n_div (X p) r + temp_closed c (X p) (fun k => T k p) r) w'
+    + - divc (toM (fun p => n_u (X p) r * T r p * n_sec2 (X p))) (toM (fun p => n_v (X p) r * T r p * n_sec2 (X p))) w'.
+
+  Theorem temperature_modal_closed (Tref : nat -> F) r w :
+    (r < cK c)%nat ->
+    temp_tendency_explicit W P toM divc clip (with_tref c Tref) (Xs Tref) r w
+    + temp_tendency_implicit W (with_tref c Tref) dv r w
+    = clip (temp_base r) w.
+  Proof.
+    intros Hr. unfold temp_tendency_explicit, temp_tendency_implicit.
+    set (ci := with_tref c Tref).
+    set (M := neg_temp_weights ci).
+    (* nodal total *)
+    assert (EN : forall p, temp_nodal_total ci true (Xs Tref p) r
+                   = (T r p * n_div (X p) r + temp_closed c (X p) (fun k => T k p) r)
+                     + (- (1)) * (Tref r * n_div (X p) r + matvec (cK c) M (fun s => toN (dv s) p) r)).
+    { intros p. unfold temp_nodal_total.
+      pose proof (tref_split_closed two_nz feqb_sound c th2_nz Tref (fun k => T k p) (X p) r Hr) as E.
+      cbv zeta in E. fold ci in E. change (with_temp (X p) (fun k => T k p - Tref k)) with (Xs Tref p) in E.
+      rewrite <- E. unfold temp_implicit_col, temp_implicit_dense. fold M.
+      unfold hsa_nodal. change (n_temp (Xs Tref p) r) with (T r p - Tref r). change (n_div (Xs Tref p) r) with (n_div (X p) r).
+      change (cK ci) with (cK c). unfold matvec.
+      rewrite (sumn_ext (cK c) (fun h => M r h * toN (dv h) p) (fun h => M r h * n_div (X p) h))
+        by (intros; now rewrite div_nodal).
+      unfold Xs. ring. }
+    assert (EU : forall p, hsa_mu (Xs Tref p) (n_temp (Xs Tref p)) r
+                   = n_u (X p) r * T r p * n_sec2 (X p) + (- Tref r) * (n_u (X p) r * n_sec2 (X p))).
+    { intros p. unfold hsa_mu. cbn. ring. }
+    assert (EV : forall p, hsa_mv (Xs Tref p) (n_temp (Xs Tref p)) r
+                   = n_v (X p) r * T r p * n_sec2 (X p) + (- Tref r) * (n_v (X p) r * n_sec2 (X p))).
+    { intros p. unfold hsa_mv. cbn. ring. }
+    (* push through to_modal and div *)
+    set (Z := fun w' => toM (fun p => Tref r * n_div (X p) r + matvec (cK c) M (fun s => toN (dv s) p) r) w').
+    set (DV := fun w' => divc (toM (fun p => n_u (X p) r * n_sec2 (X p))) (toM (fun p => n_v (X p) r * n_sec2 (X p))) w').
+    rewrite (lin_comb clip clip_lin _ (temp_base r)
+               (fun w' => - Z w' + Tref r * DV w') (1)).
+    2:{ intros w'. unfold temp_base, Z, DV.
+        rewrite (lin_comb toM toM_lin _ _ _ _ EN w').
+        rewrite (lin2_comb divc divc_lin _ _ _ _ _ _ (- Tref r)
+                   (fun p => lin_comb toM toM_lin _ _ _ _ EU p) (fun p => lin_comb toM toM_lin _ _ _ _ EV p) w').
+        ring. }
+    rewrite (lin_comb clip clip_lin (fun w' => - Z w' + Tref r * DV w') (fun w' => (- (1)) * Z w') DV (Tref r))
+      by (intros; cbv beta; ring).
+    rewrite (lin_scal clip clip_lin (fun w' => - (1) * Z w') Z (- (1))) by (intros; cbv beta; ring).
+    unfold DV. rewrite H_div_vel.
+    (* clip Z *)
+    rewrite (lin_comb clip clip_lin Z (fun w' => matvec (cK c) M (fun s => toM (toN (dv s)) w') r)
+               (toM (fun p => n_div (X p) r)) (Tref r)).
+    2:{ intros w'. unfold Z.
+        rewrite (lin_comb toM toM_lin (fun p => Tref r * n_div (X p) r + matvec (cK c) M (fun s => toN (dv s) p) r)
+                   (fun p => matvec (cK c) M (fun s => toN (dv s) p) r)
+                   (fun p => n_div (X p) r) (Tref r)) by (intros; cbv beta; ring).
+        now rewrite (column_commutes toM toM_lin). }
+    rewrite (column_commutes clip clip_lin (cK c) M (fun s w' => toM (toN (dv s)) w') r w).
+    unfold temp_implicit_col, temp_implicit_dense. fold M. change (cK ci) with (cK c).
+    unfold matvec.
+    rewrite (sumn_ext (cK c) (fun h => M r h * clip (fun w' => toM (toN (dv h)) w') w) (fun h => M r h * dv h w)).
+    2:{ intros h _. f_equal. rewrite <- (H_roundtrip h w). apply (lin_ext clip clip_lin). reflexivity. }
+    ring.
+  Qed.
+
+  (** *** divergence and vorticity equations (dry / with-time classes) *)
+  Variable orog : W -> F.
+  (** exactness of the horizontal operators on the (clipped) lnps of the state *)
+  Hypothesis H_div_grad : forall w,
+      clip (divc (toM (fun p => n_gx (X p) * n_sec2 (X p))) (toM (fun p => n_gy (X p) * n_sec2 (X p)))) w = lap lnps w.
+  Hypothesis H_curl_grad : forall w,
+      clip (curlc (toM (fun p => n_gx (X p) * n_sec2 (X p))) (toM (fun p => n_gy (X p) * n_sec2 (X p)))) w = 0.
+  (** laplacian kills the (0,0)-only field produced by _add_constant *)
+  Hypothesis lap_const : forall w, lap onem w = 0.
+
+  Definition cu_abs (p : P) (r : nat) : F := combined_u c true (X p) (fun k => cR c * T k p) r.
+  Definition cv_abs (p : P) (r : nat) : F := combined_v c true (X p) (fun k => cR c * T k p) r.
+  Definition div_base (r : nat) (w' : W) : F :=
+    - divc (toM (fun p => cu_abs p r)) (toM (fun p => cv_abs p r)) w'
+    + - lap (toM (fun p => kinetic (X p) r)) w' + - grav * lap orog w' + 0.
+  Definition vort_base (r : nat) (w' : W) : F :=
+    - curlc (toM (fun p => cu_abs p r)) (toM (fun p => cv_abs p r)) w' + 0.
+
+  Lemma cu_split (Tref : nat -> F) p r :
+    combined_u (with_tref c Tref) true (Xs Tref p) (rt_dry (with_tref c Tref) (Xs Tref p)) r
+    = cu_abs p r + (- (cR c * Tref r)) * (n_gx (X p) * n_sec2 (X p)).
+  Proof.
+    unfold cu_abs, combined_u, rt_dry. cbv zeta.
+    change (sigma_dot_full (with_tref c Tref) (Xs Tref p)) with (sigma_dot_full c (X p)).
+    change (vertical_tendency (with_tref c Tref)) with (vertical_tendency c).
+    unfold Xs. cbn [with_tref with_temp cR cTref n_temp n_u n_v n_vort n_f n_sec2 n_gx n_gy]. ring.
+  Qed.
+  Lemma cv_split (Tref : nat -> F) p r :
+    combined_v (with_tref c Tref) true (Xs Tref p) (rt_dry (with_tref c Tref) (Xs Tref p)) r
+    = cv_abs p r + (- (cR c * Tref r)) * (n_gy (X p) * n_sec2 (X p)).
+  Proof.
+    unfold cv_abs, combined_v, rt_dry. cbv zeta.
+    change (sigma_dot_full (with_tref c Tref) (Xs Tref p)) with (sigma_dot_full c (X p)).
+    change (vertical_tendency (with_tref c Tref)) with (vertical_tendency c).
+    unfold Xs. cbn [with_tref with_temp cR cTref n_temp n_u n_v n_vort n_f n_sec2 n_gx n_gy]. ring.
+  Qed.
+
+  Theorem divergence_modal_closed (Tref : nat -> F) r w :
+    div_tendency_explicit W P toM divc lap clip (with_tref c Tref) grav (Xs Tref)
+                          (fun p => rt_dry (with_tref c Tref) (Xs Tref p)) orog (fun _ => 0) r w
+    + div_tendency_implicit W lap (with_tref c Tref) (Tms Tref) lnps r w
+    = clip (div_base r) w - lap (fun w' => geo_diff false c (fun k => Tm k w') r) w.
+  Proof.
+    unfold div_tendency_explicit, div_tendency_implicit.
+    set (DG := divc (toM (fun p => n_gx (X p) * n_sec2 (X p))) (toM (fun p => n_gy (X p) * n_sec2 (X p)))).
+    rewrite (lin_comb clip clip_lin _ (div_base r) DG (cR c * Tref r)).
+    2:{ intros w'. unfold div_base, DG.
+        rewrite (lin2_comb divc divc_lin _ _ _ _ _ _ (- (cR c * Tref r))
+                   (fun p => lin_comb toM toM_lin _ _ _ _ (fun q => cu_split Tref q r) p)
+                   (fun p => lin_comb toM toM_lin _ _ _ _ (fun q => cv_split Tref q r) p) w').
+        change (fun p => kinetic (Xs Tref p) r) with (fun p => kinetic (X p) r).
+        ring. }
+    unfold DG. rewrite H_div_grad.
+    (* implicit part *)
+    set (gs := sumn (cK c) (fun k => geo_weights (cK c) (cR c) (cls c) r k * Tref k)).
+    rewrite (lin_comb lap lap_lin
+               (fun w' => div_implicit_potential (with_tref c Tref) false (fun k => Tms Tref k w') (lnps w') r)
+               (fun w' => geo_diff false c (fun k => Tm k w') r + (- gs) * onem w')
+               lnps (cR c * Tref r)).
+    2:{ intros w'. unfold div_implicit_potential, geo_diff, geo_diff_dense, Tms, gs.
+        cbn [with_tref cK cR cls cTref].
+        rewrite (sumn_ext (cK c) (fun k => geo_weights (cK c) (cR c) (cls c) r k * (Tm k w' - Tref k * onem w'))
+                   (fun k => geo_weights (cK c) (cR c) (cls c) r k * Tm k w'
+                             - geo_weights (cK c) (cR c) (cls c) r k * Tref k * onem w')) by (intros; ring).
+        rewrite sumn_sub, sumn_scal_r. ring. }
+    rewrite (lin_comb lap lap_lin (fun w' => geo_diff false c (fun k => Tm k w') r + (- gs) * onem w')
+               (fun w' => geo_diff false c (fun k => Tm k w') r) onem (- gs)) by reflexivity.
+    rewrite lap_const. ring.
+  Qed.
+
+  Theorem vorticity_modal_closed (Tref : nat -> F) r w :
+    vort_tendency_explicit W P toM curlc clip (with_tref c Tref) (Xs Tref)
+                           (fun p => rt_dry (with_tref c Tref) (Xs Tref p)) (fun _ => 0) r w
+    = clip (vort_base r) w.
+  Proof.
+    unfold vort_tendency_explicit.
+    set (CG := curlc (toM (fun p => n_gx (X p) * n_sec2 (X p))) (toM (fun p => n_gy (X p) * n_sec2 (X p)))).
+    rewrite (lin_comb clip clip_lin _ (vort_base r) CG (cR c * Tref r)).
+    2:{ intros w'. unfold vort_base, CG.
+        rewrite (lin2_comb curlc curlc_lin _ _ _ _ _ _ (- (cR c * Tref r))
+                   (fun p => lin_comb toM toM_lin _ _ _ _ (fun q => cu_split Tref q r) p)
+                   (fun p => lin_comb toM toM_lin _ _ _ _ (fun q => cv_split Tref q r) p) w').
+        ring. }
+    unfold CG. rewrite H_curl_grad. ring.
+  Qed.
+End ModalInvariance.
